@@ -20,6 +20,7 @@ import (
 	"github.com/formancehq/ledger/internal/opentelemetry/metrics"
 	"github.com/formancehq/ledger/internal/storage/driver"
 	"github.com/formancehq/ledger/internal/storage/ledgerstore"
+	"github.com/formancehq/ledger/internal/storage/sqlutils"
 	"github.com/formancehq/ledger/internal/storage/systemstore"
 	sharedapi "github.com/formancehq/stack/libs/go-libs/api"
 	"github.com/formancehq/stack/libs/go-libs/auth"
@@ -187,6 +188,23 @@ type FakeBackend struct {
 	Created  []string
 	Override func(name string) backend.Ledger // optional: serve another backend.Ledger
 	Fail     func(n int, kind string) string
+	// Missing, when set, tells which ledger names do not exist until CreateLedger has been called for them
+	// (GetLedger and GetLedgerEngine answer "not found" before that).
+	Missing func(name string) bool
+}
+
+func (b *FakeBackend) missing(name string) bool {
+	if b.Missing == nil || !b.Missing(name) {
+		return false
+	}
+	b.mu.Lock()
+	defer b.mu.Unlock()
+	for _, c := range b.Created {
+		if c == name {
+			return false
+		}
+	}
+	return true
 }
 
 func NewFakeBackend() *FakeBackend { return &FakeBackend{Ledgers: map[string]*FakeLedger{}} }
@@ -203,6 +221,9 @@ func (b *FakeBackend) ledger(name string) *FakeLedger {
 }
 
 func (b *FakeBackend) GetLedgerEngine(ctx context.Context, name string) (backend.Ledger, error) {
+	if b.missing(name) {
+		return nil, sqlutils.ErrNotFound
+	}
 	if b.Override != nil {
 		if l := b.Override(name); l != nil {
 			return l, nil
@@ -211,6 +232,9 @@ func (b *FakeBackend) GetLedgerEngine(ctx context.Context, name string) (backend
 	return b.ledger(name), nil
 }
 func (b *FakeBackend) GetLedger(ctx context.Context, name string) (*systemstore.Ledger, error) {
+	if b.missing(name) {
+		return nil, sqlutils.ErrNotFound
+	}
 	return &systemstore.Ledger{Name: name, Bucket: name}, nil
 }
 func (b *FakeBackend) ListLedgers(ctx context.Context, q systemstore.ListLedgersQuery) (*sharedapi.Cursor[systemstore.Ledger], error) {
